@@ -49,6 +49,11 @@ def stdlib_globals(module) -> dict:
     return out
 
 
+def inspect_model():
+    """`inspect.isclass` over modelled classes (register() asserts it of every class criterion)"""
+    return Obj("module inspect", isclass=lambda c: isinstance(c, type) or bool(isinstance(c, Obj) and c.__dict__.get("_is_class")))
+
+
 def _interp(f, extra=None, methods=None):
     g = stdlib_globals(f.module)
     g.update(extra or {})
@@ -306,7 +311,8 @@ def r_apply(run, rid="R01g"):
             seen.append(dict((a[0] if a else constraints) or {}))
             return Obj("class Rule", _is_class=True, __name__="Rule", __repr__="r", __str__="s")
         rule_cls = Obj("class Rule", _is_class=True, annotate=annotate)
-        unprov = Obj("Unprovided")
+        unprov = Obj("Unprovided", _truth=False)     # utils/datastructures.Unprovided: falsy, unprovided(v) tests v
+        unprov.__dict__["_call"] = lambda v: isinstance(v, Obj) and v._cls == "Unprovided"
         extra = {"Unprovided": "Unprovided", "unprovided": unprov, "Lax": lambda v: ("Lax", v), "Rule": rule_cls,
                  "exc": Obj("module exc", ConfigError="ConfigError")}
         kw = dict(kwargs)
@@ -354,10 +360,10 @@ def r_register(run, C, rid="R16h"):
     bad = {}
     n = 0
     prios = (0, 1, 2)
-    depth = 3 if run.thorough else 2
+    depth = 4 if run.thorough else 3
     existing_sets = []
     for k in range(0, depth + 1):
-        existing_sets += list(itertools.product(prios[:2] if not run.thorough else prios, repeat=k))
+        existing_sets += list(itertools.product(prios, repeat=k))
     for ex in existing_sets:
         for new_prio in prios:
             for same_fn in (False, True):
@@ -367,7 +373,8 @@ def r_register(run, C, rid="R16h"):
                            for i, p in enumerate(ex_sorted)]
                     self_ = Obj("TypeRegistry", validator=lambda fn: True, _registry=list(old), _cache={"stale": 1},
                                 _lock=Obj("lock"), cache=True, name="registry", shortcut=None, base=None, default=None)
-                    ip = Interp(globals_=stdlib_globals(reg.module), methods=methods, module=reg.module, max_steps=20000)
+                    ip = Interp(globals_=dict(stdlib_globals(reg.module), inspect=inspect_model()), methods=methods,
+                                module=reg.module, max_steps=20000)
                     kw = dict(priority=new_prio)
                     args = (self_, A)
                     if use_detector:
@@ -416,7 +423,8 @@ def r_register(run, C, rid="R16h"):
     for seq in itertools.product(steps, repeat=3 if run.thorough else 2):
         self_ = Obj("TypeRegistry", validator=lambda fn: True, _registry=[], _cache={}, _lock=Obj("lock"), cache=True,
                     name="registry", shortcut=None, base=None, default=None)
-        ip = Interp(globals_=stdlib_globals(reg.module), methods=methods, module=reg.module, max_steps=40000)
+        ip = Interp(globals_=dict(stdlib_globals(reg.module), inspect=inspect_model()), methods=methods, module=reg.module,
+                    max_steps=40000)
         n += 1
         label = "registrations " + ", then ".join(f"({c}, priority={p}) -> {fn}" for c, p, fn in seq)
         try:
